@@ -723,8 +723,14 @@ def translate(ctx=None) -> Path:
         raise TranslatorError("expand_wildcards: `not_loaded = ...` not found")
     w_notloaded = _gate(nl[0].value, {})
     guards = [n for n in ast.walk(fw) if isinstance(n, ast.If) and w_try in n.body]
-    if len(guards) != 1 or ast.unparse(guards[0].test) != "not_loaded" or len(guards[0].body) != 2:
+    if len(guards) != 1 or ast.unparse(guards[0].test) != "not_loaded" or len(guards[0].body) < 2 or guards[0].body[1] is not w_try:
         raise TranslatorError("expand_wildcards: self.load is not guarded by `if not_loaded:` (skip test; try)")
+    for extra in guards[0].body[2:]:
+        # after the load: only `if <test>: continue` (the loaded package's own wildcards led back here), nothing that loads or raises
+        if not (isinstance(extra, ast.If) and not extra.orelse and len(extra.body) == 1 and isinstance(extra.body[0], ast.Continue)
+                and not any(isinstance(n, ast.Call) and _callee(n) in ("load", "_load_package", "_load_module", "dynamic_import", "_inspect_module")
+                            for n in ast.walk(extra))):
+            raise TranslatorError(f"expand_wildcards: unexpected statement after the re-entrant load: {ast.unparse(extra)[:120]}")
     sk = guards[0].body[0]
     if not (isinstance(sk, ast.If) and len(sk.body) == 1 and isinstance(sk.body[0], ast.Continue) and not sk.orelse):
         raise TranslatorError("expand_wildcards: expected `if <external test>: continue` before self.load")
